@@ -245,6 +245,22 @@ def one_history(res, rng, ctx):
                                 case):
             return
         res.count('front_end_runs')
+    # the same capture under a supplied code table that lists names under several ids (ev.relabel): the parts of one
+    # sample use different ids of one name - through the front end and through the parsers driven directly
+    if rng.random() < 0.5:
+        events3, table3 = ev.relabel(events, rng)
+        data3 = wire.v2_file(gen.threadmap_for(events3), 8, gen.events_to_records(events3))
+        case3 = dict(case, relabelled={'events': [ev.ev_to_case(e) for e in events3],
+                                       'table': {hex(k): v for k, v in table3.items() if k >= 0x60000000}})
+        try:
+            got3 = list(PyKdebugParser().callstacks(io.BytesIO(data3), table3))
+        except Exception as x:
+            res.violation(f'c15-supplied-table-raises-{core.exc_name(x)}', f'{x!r}', case3)
+            return
+        if not check_callstacks(res, got3, merged, events3, samples, 'supplied table listing names under several ids, the '
+                                'records use any of them', case3):
+            return
+        res.count('histories_under_a_table_with_names_under_several_ids')
     # permutation metamorphism: distinct-address announcements that precede every sample may come in any order
     maps = [(i, m) for i, m in enumerate(merged) if m[2] and m[2][0] == 'map']
     first_sample = next((i for i, m in enumerate(merged) if m[2] and m[2][0] == 'sample_start'), len(merged))
@@ -330,6 +346,7 @@ def run(ctx):
     res.require('permutations_compared', 3)
     res.require('histories_with_non_stack_samples', 1)
     res.require('front_end_runs', 10)
+    res.require('histories_under_a_table_with_names_under_several_ids', 20)
     res.require('concurrent_front_end_pairs', 5)
     if monitors.HAVE_ICONTRACT:
         res.require('invariant_evaluations', 1)
